@@ -372,8 +372,17 @@ def handleArray (j : Json) : P Json := do
   let slices := match final with
     | .ok a => Json.mkObj (a.labels.map (fun l => (l, match labelIndex a.labels l with | some i => ((i : Nat) : Json) | none => Json.null)))
     | .error _ => Json.null
+  -- `ar[label]` for every label: the slice's calibrations (its data token is the store's business)
+  let slicecal := match final with
+    | .ok a => if a.isStack then Json.mkObj (a.labels.map (fun l =>
+        (l, match a.getSlice realOps (fun t i => t ++ "#" ++ toString i) l with
+            | .ok (i, s) => Json.mkObj [("idx", (i : Nat)), ("units", .str s.units), ("stack", s.isStack),
+                ("dims", Json.arr (s.dims.map (fun d => Json.arr (d.map numToJson).toArray)).toArray),
+                ("dunits", strListToJson s.dimUnits), ("dnames", strListToJson s.dimNames), ("ashape", natListToJson s.shape)]
+            | .error e => errToJson e))) else Json.mkObj []
+    | .error _ => Json.null
   pure (Json.mkObj [("ctor", rToJson arrayValToJson ctor), ("setters", Json.arr outs.toArray), ("body", body),
-    ("back", back), ("slices", slices)])
+    ("back", back), ("slices", slices), ("slicecal", slicecal)])
 
 -- ---------- the Metadata codec (C03)
 
